@@ -927,6 +927,7 @@ impl DPEventLoop {
 
   fn remove_local_reader(&mut self, reader_guid: GUID) {
     if let Some(old_reader) = self.message_receiver.remove_reader(reader_guid) {
+      old_reader.leave_topic_cache();
       self
         .poll
         .deregister(&old_reader.timed_event_timer)
